@@ -159,11 +159,12 @@ var specs = []*PropSpec{
 	},
 	{
 		ID: "C12",
-		Cfg: Config{Property: "C12", CallUndefined: true, Assert: asserts("insert", "delete", "search", "all", "backward", "min", "max", "topk", "bottomk", "range", "prefix", "size", "shape", "twin"),
+		Cfg: Config{Property: "C12", CallUndefined: true, Assert: asserts("insert", "delete", "search", "all", "backward", "min", "max", "topk", "bottomk", "range", "prefix", "size", "shape", "twin", "iter"),
 			AuditOps: []string{"scan", "shape", "extremes", "topbottom", "rangeaudit", "prefixaudit"}, AuditEvery: 7, ExcludeKF: true, Census: true, Twin: true},
 		Mix: withMix(baseMix, func(m *Mix) {
 			m.BulkInsert, m.BulkDelete, m.DeleteAll = 8, 8, 3
 			m.Scan, m.Extremes, m.TopBottom, m.Range, m.Prefix, m.Size = 1, 3, 2, 2, 2, 1
+			m.Iter = 3
 		}),
 		Families:  allFamilies,
 		Variants:  lightVariants,
